@@ -20,16 +20,16 @@ import (
 
 // Opts configures one execution.
 type Opts struct {
-	Start      ref.Position
-	ServerID   uint32
-	Plans      []simmaster.Plan // per attempt; default NoFault
-	Attempts   int              // number of Stream calls (default 1)
-	LockStep   bool
-	FailAt     int // handler fails at the k-th delivery overall (-1 never; 0 value means never unless FailSet)
-	FailSet    bool
-	Mapper     *hx.Mapper // default: tables of the history
-	KeepTx     bool       // keep the delivered *Transaction pointers
-	TCP        bool       // serve the master over a real loopback TCP socket (driver's standard dialer)
+	Start    ref.Position
+	ServerID uint32
+	Plans    []simmaster.Plan // per attempt; default NoFault
+	Attempts int              // number of Stream calls (default 1)
+	LockStep bool
+	FailAt   int // handler fails at the k-th delivery overall (-1 never; 0 value means never unless FailSet)
+	FailSet  bool
+	Mapper   *hx.Mapper // default: tables of the history
+	KeepTx   bool       // keep the delivered *Transaction pointers
+	TCP      bool       // serve the master over a real loopback TCP socket (driver's standard dialer)
 }
 
 type tcpServer struct{ *net.TCPConn }
@@ -60,13 +60,13 @@ type Delivery struct {
 
 // Outcome is what one execution produced.
 type Outcome struct {
-	Deliveries []Delivery
-	StreamErr  []error
+	Deliveries  []Delivery
+	StreamErr   []error
 	StreamPanic []string
-	Err1       []error
-	Master     *simmaster.Master
-	Mapper     *hx.Mapper
-	Hung       bool
+	Err1        []error
+	Master      *simmaster.Master
+	Mapper      *hx.Mapper
+	Hung        bool
 }
 
 type session struct {
